@@ -396,33 +396,7 @@ func c06ErrorFcall(r *Run) {
 				tv, okc := constInt(flds["Type"])
 				r.Check(okc && tv == 107, "constructors", "newErrorFcall: Type = Rerror", ret.Pos(), "error replies are not typed Rerror")
 				// Message alternatives: the error itself when it is a MessageRerror (value or pointer), else MessageRerror{Ename: err.Error()}
-				okAll := true
-				nAlt := 0
-				for _, alt := range phiAlternatives(flds["Message"], 3) {
-					nAlt++
-					v := stripConv(alt)
-					if ex, ok := v.(*ssa.Extract); ok {
-						if ta, ok := ex.Tuple.(*ssa.TypeAssert); ok && ta.X == ssa.Value(fn.Params[1]) && isP9P(ta.AssertedType, "MessageRerror") {
-							continue
-						}
-					}
-					if u, ok := v.(*ssa.UnOp); ok && u.Op == token.MUL {
-						if ex, ok := u.X.(*ssa.Extract); ok {
-							if ta, ok := ex.Tuple.(*ssa.TypeAssert); ok && ta.X == ssa.Value(fn.Params[1]) {
-								continue
-							}
-						}
-						if al, ok := u.X.(*ssa.Alloc); ok {
-							f2, named, _ := allocFields(al)
-							if named != nil && named.Obj().Name() == "MessageRerror" {
-								if c, ok := f2["Ename"].(*ssa.Call); ok && c.Call.IsInvoke() && c.Call.Method.Name() == "Error" && derivesFrom(c.Call.Value, fn.Params[1], 3) {
-									continue
-								}
-							}
-						}
-					}
-					okAll = false
-				}
+				okAll, nAlt := errMessageAlternatives(r.P, flds["Message"], fn.Params[1], 0)
 				r.Check(okAll && nAlt >= 2, "constructors", "newErrorFcall: message is the Rerror itself or MessageRerror{Ename: err.Error()}", ret.Pos(), "the error text sent is not the handler's error text")
 			}
 		}
@@ -861,4 +835,70 @@ func c07Remove(r *Run, rem *ssa.Function) {
 		}
 		r.Check(okRes, "flush", "reqMap.remove: reports whether the tag was outstanding", ret.Pos(), "the result does not say whether an entry was found")
 	}
+}
+
+// errMessageAlternatives: every alternative of v is the error errv itself when it is a MessageRerror (value or
+// pointer), or MessageRerror{Ename: errv.Error()}; helper functions that compute the message from the error are
+// followed through their return values.
+func errMessageAlternatives(p *Prog, v ssa.Value, errv ssa.Value, depth int) (bool, int) {
+	okAll, nAlt := true, 0
+	for _, alt := range phiAlternatives(v, 3) {
+		v := stripConv(alt)
+		if ex, ok := v.(*ssa.Extract); ok {
+			if ta, ok := ex.Tuple.(*ssa.TypeAssert); ok && ta.X == errv && isP9P(ta.AssertedType, "MessageRerror") {
+				nAlt++
+				continue
+			}
+		}
+		if ta, ok := v.(*ssa.TypeAssert); ok && !ta.CommaOk && ta.X == errv && isP9P(ta.AssertedType, "MessageRerror") {
+			nAlt++
+			continue
+		}
+		if u, ok := v.(*ssa.UnOp); ok && u.Op == token.MUL {
+			if ex, ok := u.X.(*ssa.Extract); ok {
+				if ta, ok := ex.Tuple.(*ssa.TypeAssert); ok && ta.X == errv {
+					nAlt++
+					continue
+				}
+			}
+			if ta, ok := u.X.(*ssa.TypeAssert); ok && !ta.CommaOk && ta.X == errv {
+				nAlt++
+				continue
+			}
+			if al, ok := u.X.(*ssa.Alloc); ok {
+				f2, named, _ := allocFields(al)
+				if named != nil && named.Obj().Name() == "MessageRerror" {
+					if c, ok := f2["Ename"].(*ssa.Call); ok && c.Call.IsInvoke() && c.Call.Method.Name() == "Error" && derivesFrom(c.Call.Value, errv, 3) {
+						nAlt++
+						continue
+					}
+				}
+			}
+		}
+		if c, ok := v.(*ssa.Call); ok && depth < 2 {
+			if g := staticCallee(&c.Call); g != nil && p.InModule(g) && g.Blocks != nil {
+				idx := -1
+				for i, a := range c.Call.Args {
+					if a == errv {
+						idx = i
+					}
+				}
+				if idx >= 0 && g.Signature.Results().Len() == 1 {
+					sub := true
+					for _, ret := range returnsOf(g) {
+						ok2, n2 := errMessageAlternatives(p, ret.Results[0], g.Params[idx], depth+1)
+						if !ok2 {
+							sub = false
+						}
+						nAlt += n2
+					}
+					if sub {
+						continue
+					}
+				}
+			}
+		}
+		okAll = false
+	}
+	return okAll, nAlt
 }
